@@ -1,0 +1,211 @@
+//! Verification hooks. Compiled only with `--cfg petrichorit_des_verif`; without the cfg the
+//! crate is unchanged. Nothing here alters the behaviour of the queue or of its allocator:
+//! the hooks only *report* what the allocator did and expose otherwise crate-private
+//! constructors / read-only state to an external checking harness.
+
+use super::{
+    alloc::{CQueueLLAllocator, CQueueLLAllocatorInner},
+    linked_list::DualLinkedList,
+    CQueue,
+};
+use std::{alloc::Layout, cell::{Cell, RefCell}, collections::VecDeque, ptr::NonNull, time::Duration};
+
+/// One bookkeeping action of the page allocator (`stable/alloc.rs`).
+/// `size` / `align` are those of the `Layout` passed by the caller (before normalisation).
+#[derive(Debug, Clone, Copy, PartialEq, Eq)]
+pub enum AllocEvent {
+    /// `add_page` obtained a fresh page from the system allocator
+    AddPage { addr: usize, len: usize },
+    /// `allocate` returned `Ok(addr)`
+    Allocate { addr: usize, size: usize, align: usize },
+    /// `allocate` returned `Err(())`
+    AllocateFailed { size: usize, align: usize },
+    /// `deallocate` was called for `addr`
+    Deallocate { addr: usize, size: usize, align: usize },
+}
+
+thread_local! {
+    static LOG: RefCell<Option<Vec<AllocEvent>>> = const { RefCell::new(None) };
+    /// (limit, pages obtained by the `allocate` call in progress); limit 0 = none
+    static PAGE_LIMIT: Cell<(usize, usize)> = const { Cell::new((0, 0)) };
+}
+
+/// Message of the panic raised when the page limit is exceeded.
+pub const PAGE_LIMIT_MSG: &str = "verif: page limit exceeded";
+
+/// Let the observer panic (inside `add_page`, after the page was registered) once a single
+/// `allocate` call has obtained more than `limit` pages — this turns a `find_region` that keeps
+/// adding pages forever into a catchable panic. `0` removes the limit.
+pub fn set_page_limit(limit: usize) {
+    PAGE_LIMIT.with(|c| c.set((limit, 0)));
+}
+
+/// Start (or restart) recording allocator events of the current thread.
+pub fn observe_start() {
+    LOG.with(|l| *l.borrow_mut() = Some(Vec::new()));
+}
+
+/// Take the events recorded since the last call (recording continues).
+#[must_use]
+pub fn observe_take() -> Vec<AllocEvent> {
+    PAGE_LIMIT.with(|c| c.set((c.get().0, 0)));
+    LOG.with(|l| l.borrow_mut().as_mut().map(std::mem::take).unwrap_or_default())
+}
+
+/// Stop recording.
+pub fn observe_stop() {
+    LOG.with(|l| *l.borrow_mut() = None);
+}
+
+pub(crate) fn record(ev: AllocEvent) {
+    // `try_with`: allocator calls may still happen while thread-locals are torn down
+    let _ = LOG.try_with(|l| {
+        if let Ok(mut l) = l.try_borrow_mut() {
+            if let Some(v) = l.as_mut() {
+                v.push(ev);
+            }
+        }
+    });
+    match ev {
+        AllocEvent::AddPage { .. } => {
+            let over = PAGE_LIMIT
+                .try_with(|c| {
+                    let (limit, n) = c.get();
+                    c.set((limit, n + 1));
+                    limit != 0 && n + 1 > limit
+                })
+                .unwrap_or(false);
+            assert!(!over, "{PAGE_LIMIT_MSG}");
+        }
+        // a completed `allocate` call starts a new count
+        AllocEvent::Allocate { .. } | AllocEvent::AllocateFailed { .. } => {
+            let _ = PAGE_LIMIT.try_with(|c| c.set((c.get().0, 0)));
+        }
+        AllocEvent::Deallocate { .. } => {}
+    }
+}
+
+/// Read-only view of the allocator bookkeeping.
+#[derive(Debug, Clone, PartialEq, Eq)]
+pub struct AllocSnapshot {
+    /// free regions `(addr, size)` in list order (front first)
+    pub free: Vec<(usize, usize)>,
+    /// owned pages in acquisition order
+    pub pages: Vec<usize>,
+    pub page_size: usize,
+    pub allocated_mem: usize,
+}
+
+impl AllocSnapshot {
+    fn of(inner: &CQueueLLAllocatorInner) -> Self {
+        let (free, pages, page_size, allocated_mem) = inner.verif_state();
+        AllocSnapshot {
+            free,
+            pages,
+            page_size,
+            allocated_mem,
+        }
+    }
+}
+
+/// The page allocator on its own (it is crate-private otherwise), for requests of mixed
+/// sizes and alignments.
+pub struct VerifAllocator {
+    inner: Box<CQueueLLAllocatorInner>,
+}
+
+impl VerifAllocator {
+    #[must_use]
+    pub fn with_page_size(page_size: usize) -> Self {
+        VerifAllocator {
+            inner: Box::new(CQueueLLAllocatorInner::with_page_size(page_size)),
+        }
+    }
+
+    fn handle(&mut self) -> CQueueLLAllocator {
+        self.inner.handle()
+    }
+
+    /// `CQueueLLAllocator::allocate`
+    pub fn allocate(&mut self, layout: Layout) -> Option<usize> {
+        self.handle().allocate(layout).ok().map(|p| p as usize)
+    }
+
+    /// `CQueueLLAllocator::deallocate`
+    ///
+    /// # Safety
+    /// `addr` must have been returned by `allocate` of this allocator with the same layout
+    /// and not have been deallocated since.
+    ///
+    /// # Panics
+    /// If `addr` is null.
+    pub unsafe fn deallocate(&mut self, addr: usize, layout: Layout) {
+        let ptr = NonNull::new(addr as *mut u8).expect("null address");
+        self.handle().deallocate(ptr, layout);
+    }
+
+    #[must_use]
+    pub fn snapshot(&self) -> AllocSnapshot {
+        AllocSnapshot::of(&self.inner)
+    }
+}
+
+/// Read-only view of a `CQueue` (diagnosis of a divergence only).
+#[derive(Debug, Clone, PartialEq, Eq)]
+pub struct QueueSnapshot {
+    pub alloc: AllocSnapshot,
+    pub head: usize,
+    pub t_current: Duration,
+    pub t0: Duration,
+    pub t1: Duration,
+    /// per bucket, front to back: `(event id, time, node address)`
+    pub buckets: Vec<Vec<(usize, Duration, usize)>>,
+    /// the zero-delay bucket, front to back: `(event id, time)`
+    pub zero: Vec<(usize, Duration)>,
+}
+
+impl<E> CQueue<E> {
+    /// `CQueue::new` with an explicit allocator page size (instead of `page_size::get()`).
+    #[must_use]
+    pub fn verif_with_page_size(n: usize, t: Duration, page_size: usize) -> Self {
+        let t_all = t.as_nanos() * n as u128;
+        let mut alloc = Box::new(CQueueLLAllocatorInner::with_page_size(page_size));
+        Self {
+            n,
+            t_nanos: t.as_nanos(),
+            t,
+            zero_event_bucket: VecDeque::with_capacity(64),
+            buckets: std::iter::repeat_with(|| DualLinkedList::new(alloc.handle()))
+                .take(n)
+                .collect(),
+            head: 0,
+            t_current: Duration::ZERO,
+            t0: Duration::ZERO,
+            t1: t,
+            t_all,
+            alloc,
+            event_id: 0,
+            len: 0,
+        }
+    }
+
+    /// Size and alignment of the list node the allocator is asked for on every insertion.
+    #[must_use]
+    pub fn verif_node_layout() -> (usize, usize) {
+        let l = Layout::new::<super::linked_list::EventNode<E>>();
+        (l.size(), l.align())
+    }
+
+    #[must_use]
+    pub fn verif_snapshot(&self) -> QueueSnapshot {
+        QueueSnapshot {
+            alloc: AllocSnapshot::of(&self.alloc),
+            head: self.head,
+            t_current: self.t_current,
+            t0: self.t0,
+            t1: self.t1,
+            buckets: self.buckets.iter().map(DualLinkedList::verif_nodes).collect(),
+            zero: self.zero_event_bucket.iter().map(|e| (e.2, e.1)).collect(),
+        }
+    }
+}
